@@ -127,6 +127,17 @@ func init() {
 				cse.TimeoutMS = 60000
 				cs = append(cs, cse)
 			}
+			// a config-file plan taken up while its (only) rate stage is under way - schedule.stage-start lies in the past
+			for i := 0; i < map[string]int{"quick": 3, "thorough": 12}[tier]; i++ {
+				p := c09Params{Interval: pick(r, 50, 100, 200) * 1000, StopAt: -1, StallAt: -1}
+				p.Desc = fmt.Sprintf("file stage under way: interval=%dms stage-start %d ms ago", p.Interval/1000, 700+300*i)
+				p.Values = []int{700 + 300*i, 2 + r.IntN(4)}
+				cse := core.MkCase("C09", "filestage", i, seed, p)
+				cse.Race = i%2 == 0
+				cse.Procs = pick(r, 2, 16)
+				cse.TimeoutMS = 60000
+				cs = append(cs, cse)
+			}
 			// the run ends by its duration a little after a tick: that tick's value still is that tick's request
 			nlt := 6
 			if tier == "thorough" {
@@ -242,7 +253,7 @@ func init() {
 			}
 			return cs
 		},
-		Kinds:  map[string]core.RunFunc{"cadence": c09Cadence, "first": c09First, "promptfirst": c09PromptFirst, "aftermath": c09Aftermath, "zero": c09Zero, "fastticks": c09FastTicks, "lasttick": c09LastTick, "deadfirst": c09DeadFirst},
+		Kinds:  map[string]core.RunFunc{"cadence": c09Cadence, "first": c09First, "promptfirst": c09PromptFirst, "aftermath": c09Aftermath, "zero": c09Zero, "fastticks": c09FastTicks, "lasttick": c09LastTick, "filestage": c09FileStage, "deadfirst": c09DeadFirst},
 		Floors: map[string]int64{"evaluations_checked": 300, "sum_checked_runs": 10, "first_runs": 4, "zero_runs": 4},
 	})
 }
@@ -699,4 +710,75 @@ func c09FastTicks(c *core.Case, o *core.Outcome) {
 	o.AddObs("sum_checked_runs", 1)
 	o.Sig("fastticks:iv=%dus:c=%d:procs=%d:race=%v", p.Interval, p.Spec.Concurrency, c.Procs, c.Race)
 	o.Sample = map[string]any{"case": p.Desc, "evaluations": evals.Load(), "requested": sum.Load(), "started": su + fa, "dropped": dr}
+}
+
+// c09FileStage: `schedule: stage-start` some hundred milliseconds in the past, so that the plan is taken up inside its
+// constant stage. From the start of triggering on, the stage's rate is evaluated once at once and then once per tick
+// (evaluation k no earlier than k intervals after triggering started), and what the evaluations return is what is requested:
+// committed evaluations <= started + dropped <= all evaluations.
+func c09FileStage(c *core.Case, o *core.Outcome) {
+	var p c09Params
+	c.Params(&p)
+	ago, per := time.Duration(p.Values[0])*time.Millisecond, p.Values[1]
+	iv := time.Duration(p.Interval) * time.Microsecond
+	y := fmt.Sprintf("scenario: verifScenario\nlimits:\n  max-duration: 900ms\n  concurrency: 16\n  max-iterations: 0\n  ignore-dropped: true\nschedule:\n  stage-start: %s\ndefault:\n  distribution: none\n  jitter: 0\nstages:\n- duration: 30s\n  mode: constant\n  rate: %d/%s\n",
+		time.Now().Add(-ago).UTC().Format(time.RFC3339Nano), per, iv)
+	l := engine.NewLog()
+	var started atomic.Int64
+	scenario := func(t *f1testing.T) f1testing.RunFn {
+		return func(t *f1testing.T) { started.Add(1) }
+	}
+	var mu sync.Mutex
+	var trigCtx context.Context
+	var tStart time.Time
+	var all, before, committed int64
+	var nAll int
+	early := ""
+	hooks := &engine.Hooks{
+		OnTrigger: func(ctx context.Context) { mu.Lock(); trigCtx, tStart = ctx, time.Now(); mu.Unlock() },
+		StageRate: func(stage, k int, _ time.Time, v int) int {
+			now := time.Now()
+			mu.Lock()
+			defer mu.Unlock()
+			if tStart.IsZero() {
+				if early == "" {
+					early = fmt.Sprintf("evaluation %d of the stage was made before triggering had started", k)
+				}
+			} else if e := now.Sub(tStart); e < time.Duration(k)*iv && early == "" {
+				early = fmt.Sprintf("evaluation %d of the stage was made %v after triggering started, %d tick intervals of %v cannot have passed", k, e, k, iv)
+			}
+			if trigCtx != nil && trigCtx.Err() == nil {
+				committed = before
+			}
+			all += int64(v)
+			before = all
+			nAll++
+			return v
+		},
+	}
+	spec := engine.Spec{Mode: "filestages", YAML: y}
+	r := engine.Execute(context.Background(), spec, l, scenario, hooks, nil)
+	if r.NewErr != nil {
+		o.Inconc("harness: cannot build run: %v", r.NewErr)
+		return
+	}
+	mu.Lock()
+	defer mu.Unlock()
+	o.Events = int64(nAll) + started.Load()
+	if early != "" {
+		o.Violate("filestage-cadence:"+p.Desc, "%s (%s)", early, p.Desc)
+		return
+	}
+	su, fa, dr := resultCounts(r)
+	if got := int64(su + fa + dr); got < committed || got > all {
+		o.Violate("filestage-sum:"+p.Desc, "the stage's rate was evaluated %d times and returned %d in all (%d by evaluations that were followed by another one while triggering was on); the run reports %d started + dropped (%s)", nAll, all, committed, got, p.Desc)
+		return
+	}
+	if nAll < 3 {
+		o.Inconc("only %d evaluations (%s)", nAll, p.Desc)
+		return
+	}
+	o.AddObs("evaluations_checked", int64(nAll))
+	o.Sig("filestage:interval=%dus", p.Interval)
+	o.Sample = map[string]any{"case": p.Desc, "evaluations": nAll, "requested": all, "started": su + fa, "dropped": dr}
 }
